@@ -142,14 +142,18 @@ def get_moments_of_inertia(system, weight=True):
 
     Args:
         system(ASE Atoms): Atomic system.
+        weight(bool): Whether the tensor is weighted by the atomic masses
+            (True) or all masses are set to 1 (False). In both cases the
+            tensor is taken about the center of mass returned by
+            get_center_of_mass.
 
     Returns:
         (np.ndarray, np.ndarray): The eigenvalues and eigenvectors of the
-        geometric inertia tensor.
+        inertia tensor.
     """
-    # Move the origin to the geometric center
+    # Move the origin to the (periodicity-aware) center of mass
     positions = system.get_positions()
-    centroid = get_center_of_mass(system, weight)
+    centroid = get_center_of_mass(system)
     pos_shifted = positions - centroid
 
     # Calculate the geometric inertia tensor
